@@ -402,7 +402,8 @@ def assign_vehicle_id(input, vehicle_types, export=None):
         v_type = rot["vehicle_type"]
         try:
             # find idle vehicle for rotation
-            v_id = next(v_id for v_id in idle_vehicles if v_type in v_id)
+            # vehicle ids are "<type>_<number>": compare the type exactly
+            v_id = next(v_id for v_id in idle_vehicles if v_id.rsplit("_", 1)[0] == v_type)
             idle_vehicles.remove(v_id)
         except StopIteration:
             # no vehicle idle: generate new vehicle id
